@@ -19,7 +19,22 @@ HARNESS_OUT = os.path.join(BUILD, "harness")
 SPECS = os.path.join(ROOT, "specs")
 EVID = os.environ.get("VERIF_EVID") or os.path.join(ROOT, "evidence")
 TLA_JAR = "/opt/veriftools/tla/tla2tools.jar:/opt/veriftools/tla/CommunityModules-deps.jar"
-NPROC = os.cpu_count() or 8
+NCPU = os.cpu_count() or 8
+
+
+def free_cpus():
+    """Parallelism for the next phase: all cores on an idle machine, fewer when other checks are running (load-adaptive,
+    so that concurrent checks do not oversubscribe the machine). VERIF_JOBS overrides."""
+    if os.environ.get("VERIF_JOBS"):
+        return max(1, int(os.environ["VERIF_JOBS"]))
+    try:
+        load = os.getloadavg()[0]
+    except OSError:
+        load = 0
+    return int(max(2, min(NCPU, NCPU - load + 1)))
+
+
+NPROC = NCPU
 
 LIB_TARGETS = ["lib/libtest_util.a", "lib/libbitcoin_cli.a", "lib/libbitcoin_node.a", "lib/libbitcoin_consensus.a",
                "src/libminisketch.a", "src/secp256k1/lib/libsecp256k1.a", "lib/libbitcoin_wallet.a", "src/libleveldb.a",
@@ -117,7 +132,7 @@ class Ctx:
         res.log_path = os.path.join(self.work, name + ".tlc.log")
         res.emit_path = os.path.join(self.work, name + ".emit.ndjson")
         if workers is None:
-            workers = 1 if (simulate or single_worker) else min(NPROC, 16)
+            workers = 1 if (simulate or single_worker) else min(free_cpus(), 16)
         jopts = ["-XX:+UseParallelGC", "-Xmx" + xmx, "-DTLA-Library=" + os.path.join(SPECS, "lib"),
                  "-Dtlc2.tool.fp.FPSet.impl=tlc2.tool.fp.OffHeapDiskFPSet"]
         if depth_first:
@@ -208,7 +223,7 @@ class Ctx:
         """Write `items` (list of JSON-able test cases, or a path) to shards, run `binary mode shard args...` in
         parallel. The adapter prints one JSON object per line; kinds: mismatch, abort, summary, info, trace."""
         name = name or mode
-        nproc = nproc or NPROC
+        nproc = nproc or free_cpus()
         if isinstance(items, str):
             with open(items) as f:
                 lines = f.readlines()
@@ -441,7 +456,8 @@ class Graph:
         self.nedges = 0
         seen_init = set(); seen_edge = set()
         for e in edges:
-            kf, kt = canon(e["f"]), canon(e["t"])
+            # fk/tk (full state) when the projection f/t is not injective, see VFEdgeK in specs/lib/VF.tla
+            kf, kt = canon(e.get("fk", e["f"])), canon(e.get("tk", e["t"]))
             ek = (kf, canon(e["a"]), kt, canon(e.get("r")))
             if ek in seen_edge:
                 continue
